@@ -221,8 +221,8 @@ def parse_value(p, ty):
         if v == 'select':
             p.expect('('); tc = p.type(); c = parse_value(p, tc); p.expect(','); t1 = p.type(); a = parse_value(p, t1); p.expect(','); t2 = p.type(); b = parse_value(p, t2); p.expect(')')
             return Val('cselect', t1, c=c, a=a, b=b)
-        if v in ('add', 'sub', 'mul'):
-            while p.peek()[1] in ('nsw', 'nuw'): p.next()
+        if v in ('add', 'sub', 'mul', 'sdiv', 'udiv', 'srem', 'urem', 'and', 'or', 'xor', 'shl', 'lshr', 'ashr'):
+            while p.peek()[1] in ('nsw', 'nuw', 'exact'): p.next()
             p.expect('('); t1 = p.type(); a = parse_value(p, t1); p.expect(','); t2 = p.type(); b = parse_value(p, t2); p.expect(')')
             return Val('cbin', t1, op=v, a=a, b=b)
     if v == '{' or v == '[' or v == '<':
@@ -569,8 +569,9 @@ class Emitter:
         if k == 'cselect':
             return '(%s ? %s : %s)' % (s.v(x.c), s.v(x.a), s.v(x.b))
         if k == 'cbin':
-            o = {'add': '+', 'sub': '-', 'mul': '*'}[x.op]
-            return '((%s)(%s %s %s))' % (s.cty(x.ty), s.v(x.a), o, s.v(x.b))
+            class _B: pass
+            i = _B(); i.ty = x.ty; i.a = x.a; i.b = x.b; i.bop = x.op; i.flags = set(); i.dst = None
+            return s.binexpr(i)
         raise ValueError('value kind %s' % k)
 
     def gname(s, n): return 'g_' + cid(n) if n.startswith('@.') or n.startswith('@__PRETTY') else cid(n)
@@ -643,6 +644,37 @@ class Emitter:
                     elif ins.op == 'gep': decl(ins.dst, PtrTy(IntTy(8)))
                     elif ins.op in ('call', 'invoke'): decl(ins.dst, ins.rty)
                     elif ins.op == 'extractvalue': decl(ins.dst, s.agg_offset(ins.ty, ins.idx)[1])
+        # (shl i64 x, 32) used only by (ashr|lshr i64 ., 32) is LLVM's idiom for sext/zext of the low 32 bits: in narrow mode the pair is
+        # emitted as that extension (the intermediate does not fit the narrow width by construction)
+        def is_c32(v): return getattr(v, 'kind', None) == 'int' and v.value == 32
+        shl32 = {}
+        for b in f.blocks:
+            for ins in b.insts:
+                if ins.op == 'bin' and ins.bop == 'shl' and s.is64(ins.ty) and is_c32(ins.b) and ins.dst: shl32[ins.dst] = ins
+        if shl32:
+            bad = set()
+            def scanv(v, ok_user):
+                if isinstance(v, Val):
+                    if v.kind == 'local' and v.name in shl32 and not ok_user: bad.add(v.name)
+                    for kk in ('base', 'x', 'a', 'b', 'c'):
+                        if isinstance(getattr(v, kk, None), Val): scanv(getattr(v, kk), False)
+                    for kk in ('idx', 'elems'):
+                        for e in getattr(v, kk, None) or []:
+                            if isinstance(e, Val): scanv(e, False)
+            for b in f.blocks:
+                for ins in b.insts:
+                    ok = ins.op == 'bin' and ins.bop in ('ashr', 'lshr') and s.is64(ins.ty) and is_c32(ins.b)
+                    for k, x in ins.__dict__.items():
+                        if k == 'dst': continue
+                        if isinstance(x, Val): scanv(x, ok and k == 'a')
+                        elif isinstance(x, list):
+                            for e in x:
+                                if isinstance(e, Val): scanv(e, False)
+                                elif isinstance(e, tuple):
+                                    for ee in e:
+                                        if isinstance(ee, Val): scanv(ee, False)
+            for n in bad: del shl32[n]
+        s.shl32 = shl32
         params = ', '.join('%s %s' % (s.cty(p['ty']), cid(p['name']) + ('_in' if p['byval'] else '')) for p in f.params) or 'void'
         o.append('%s %s(%s) {' % (s.cty(f.ret), s.fname(f.name), params))
         for n, t in sorted(locals_.items()):
@@ -746,6 +778,10 @@ class Emitter:
         if t.bits == 1:
             return '((u1)((%s %s %s) & 1))' % (a, {'and': '&', 'or': '|', 'xor': '^', 'add': '^', 'sub': '^', 'mul': '&'}[op], b)
         w64 = t.bits == 64
+        sh = getattr(s, 'shl32', {})
+        if w64 and op == 'shl' and ins.dst in sh: return 'SHL32_PAIR(%s)' % a
+        if w64 and op in ('ashr', 'lshr') and ins.a.kind == 'local' and ins.a.name in sh and ins.b.kind == 'int' and ins.b.value == 32:
+            return '%s(%s)' % ('SEXT_LOW32' if op == 'ashr' else 'ZEXT_LOW32', s.v(sh[ins.a.name].a))
         if op in ('add', 'sub', 'mul'):
             o = {'add': '+', 'sub': '-', 'mul': '*'}[op]
             if 'nsw' in ins.flags: return '((%s)((%s)%s %s (%s)%s))' % (ct, st, a, o, st, b)
@@ -968,6 +1004,8 @@ class Emitter:
 
     def emit_global_decl(s, g):
         n = s.gname(g['name']); sz = max(1, sizeof(g['ty'])); al = g['align'] or alignof(g['ty'])
+        if (g['external'] or g['init'] is None) and g['name'].startswith(('@_ZTI', '@_ZTS')):
+            return 'char %s[16];   /* external typeinfo: only its address is used (exception matching) */' % n
         if g['external'] or g['init'] is None:
             return 'extern char %s[%d];' % (n, sz)
         if g['init'].kind == 'cstr':
